@@ -206,7 +206,7 @@ class Materials:
         return [{"bin": os.path.join(ANCHORS, f), "len": os.path.getsize(os.path.join(ANCHORS, f)), "selfparse": True} for f in names]
 
     # ---- header segments
-    def fcb(self, fam, rev, mt, size):
+    def fcb(self, fam, rev, mt, size):  # noqa: C901
         """A flash configuration block of the family (registers at their reset values, tag forced, LUT area randomised)."""
         from spsdk.image.fcb.fcb import FCB
         from spsdk.image.mem_type import MemoryType
@@ -223,23 +223,17 @@ class Materials:
         data[0x80:0x100] = raw_payload(0x80, "fcb-lut", fam)
         return [{"bin": self.put(bytes(data), fam, rev, f"fcb-{mt}.bin"), "len": len(data), "selfparse": True}]
 
-    def xmcd(self, fam, rev):
-        import yaml
+    def xmcd(self, fam):
+        """External memory configuration blocks of the family, one per distinct length (registers at their default values)."""
         from spsdk.image.xmcd.xmcd import XMCD
 
         out = []
         for mt in XMCD.get_supported_memory_types(fam):
             for ct in XMCD.get_supported_configuration_types(fam, mt):
-                cfg = yaml.safe_load(XMCD.generate_config_template(fam, mt, ct))
-                cfg["revision"] = rev
-                x = XMCD.load_from_config(cfg)
-                data = x.export()
-                ypath = self.path(fam, rev, f"xmcd-{mt.label}-{ct.label}.yaml")
-                with open(ypath, "w") as f:
-                    yaml.safe_dump(cfg, f)
-                out.append({"bin": self.put(data, fam, rev, f"xmcd-{mt.label}-{ct.label}.bin"), "len": len(data), "yaml": ypath, "selfparse": True})
+                data = XMCD(fam, mt, ct).export()
+                XMCD.parse(data + bytes(16), family=fam)
+                out.append({"bin": self.put(data, fam, f"xmcd-{mt.label}-{ct.label}.bin"), "len": len(data), "selfparse": True})
         out.sort(key=lambda m: m["len"])
-        # one representative per length
         seen, res = set(), []
         for m in out:
             if m["len"] not in seen:
@@ -247,30 +241,57 @@ class Materials:
                 res.append(m)
         return res
 
+    @staticmethod
+    def key(fam, rev, mt, seg):
+        name = seg["name"]
+        if name in ("ahab_container", "primary_image_container_set", "secondary_image_container_set"):
+            return ("ahab", fam, rev, "secondary" if name.startswith("secondary") else "primary")
+        return {"mbi": ("mbi", fam, rev), "hab_container": ("hab", seg["off"] if seg["off"] in (0x400, 0x1000) else 0x400),
+                "sb21": ("sb21",), "sb31": ("sb31",), "fcb": ("fcb", fam, rev, mt, seg["size"]), "fcb_xspi": ("fcb", fam, rev, mt, seg["size"]),
+                "xmcd": ("xmcd", fam)}.get(name)
+
+    def build(self, key):
+        k = key[0]
+        if k == "mbi":
+            return self.mbi(key[1], key[2])
+        if k == "hab":
+            return self.hab(key[1])
+        if k == "ahab":
+            return self.ahab(key[1], key[2], key[3])
+        if k in ("sb21", "sb31"):
+            return self.golden({"sb21": "sb2", "sb31": "sb3"}[k])
+        if k == "fcb":
+            return self.fcb(key[1], key[2], key[3], key[4])
+        if k == "xmcd":
+            return self.xmcd(key[1])
+        raise Machinery(f"unknown material {key}")
+
+    def prepare(self, tables, triples):
+        """Build every payload menu that the given triples need (in parallel, grouped by family)."""
+        need = {}
+        for fam, rev, mt, tb in triples:
+            for seg in tables[tb]["segs"]:
+                key = self.key(fam, rev, mt, seg)
+                if key is not None and key not in self.cache:
+                    need.setdefault(fam if len(key) > 2 or key[0] == "xmcd" else "", set()).add(key)
+        groups = [sorted(v) for v in need.values()]
+
+        def work(keys):
+            res = [(k, self.build(k)) for k in keys]
+            return res, self.notes
+
+        for res, notes in pmap(work, groups, chunksize=1):
+            self.notes.update(notes)
+            for k, v in res:
+                self.cache[k] = v
+
     def get(self, fam, rev, mt, table, i):
         """Menu of payloads (list of {bin, len, ...}) for segment i of the table, for this (family, revision, memory type)."""
-        seg = table["segs"][i]
-        name = seg["name"]
-        key = {"mbi": ("mbi", fam, rev), "hab_container": ("hab", seg["off"]), "sb21": ("sb21",), "sb31": ("sb31",),
-               "fcb": ("fcb", fam, rev, mt), "fcb_xspi": ("fcb", fam, rev, mt), "xmcd": ("xmcd", fam, rev)}.get(name)
-        if name in ("ahab_container", "primary_image_container_set", "secondary_image_container_set"):
-            key = ("ahab", fam, rev, "secondary" if name.startswith("secondary") else "primary")
+        key = self.key(fam, rev, mt, table["segs"][i])
         if key is None:
             return None
         if key not in self.cache:
-            k = key[0]
-            if k == "mbi":
-                self.cache[key] = self.mbi(fam, rev)
-            elif k == "hab":
-                self.cache[key] = self.hab(seg["off"] if seg["off"] in (0x400, 0x1000) else 0x400)
-            elif k == "ahab":
-                self.cache[key] = self.ahab(fam, rev, key[3])
-            elif k in ("sb21", "sb31"):
-                self.cache[key] = self.golden({"sb21": "sb2", "sb31": "sb3"}[k])
-            elif k == "fcb":
-                self.cache[key] = self.fcb(fam, rev, mt, seg["size"])
-            elif k == "xmcd":
-                self.cache[key] = self.xmcd(fam, rev)
+            self.cache[key] = self.build(key)
         return self.cache[key]
 
 
